@@ -1,3 +1,4 @@
+import Grexv.Lemmas.EndToEndRV
 import Grexv.Model.RegExp
 import Grexv.Lemmas.Sort
 import Grexv.Lemmas.EndToEnd
@@ -174,6 +175,15 @@ theorem thresholds_in_pattern (cfg : Config) (hp : RepPrintNA cfg) (env : Env) (
     (hlen : ∀ w ∈ storedCases cfg env ws, (clusterOfPieces (env.segOf w)).length ≤ 1000) (hws : ws ≠ []) :
     ∃ P, Spec.parse (fmtRegExp cfg st.finalAst) = some (⟨cfg.ci, false⟩, P) ∧ Pat.Thresh cfg.minRep cfg.minLen P :=
   rep_thresholds cfg hp env ws st h hseg
+    (fun w hw => by have := hlen w hw; rwa [clusterOfPieces_eq, List.length_map] at this) hws
+
+/-- the same in verbose mode (`-r -x`): whenever `RegExp::from` returns, the pattern the regex crate builds from the verbose text under
+`(?x)` honours the thresholds — it is the very pattern of the non-verbose text -/
+theorem thresholds_in_pattern_verbose (cfg : Config) (hp : RepVerbose cfg) (env : Env) (ws : List Str) (st : Stages)
+    (h : regExpFrom cfg env ws = .ok st) (hseg : ∀ w ∈ storedCases cfg env ws, SegOK env w)
+    (hlen : ∀ w ∈ storedCases cfg env ws, (clusterOfPieces (env.segOf w)).length ≤ 1000) (hws : ws ≠ []) :
+    ∃ P, Spec.parse (fmtRegExp cfg st.finalAst) = some (⟨cfg.ci, true⟩, P) ∧ Pat.Thresh cfg.minRep cfg.minLen P :=
+  rep_thresholds_verbose cfg hp env ws st h hseg
     (fun w hw => by have := hlen w hw; rwa [clusterOfPieces_eq, List.length_map] at this) hws
 
 /-- what the contract says about what is matched: the operand of a counted repetition matches nothing shorter than the bound -/
